@@ -84,6 +84,9 @@ HAND_MULTI = [
     {"files": {"/w/r.td": 'include "r.td"\ninclude "./x.td"\ninclude "/w/x.td"\nclass R : X;',
                "/w/x.td": 'include "r.td"\nclass X;'}, "root": "/w/r.td"},
     {"files": {"/w/r.td": 'include "a.td" include "a.td"  def q { int x = !add(1,\n'}, "root": "/w/r.td"},
+    {"files": {"/w/r.td": 'include "a.td"\n' * 40 + 'def r : A;', "/w/a.td": 'include "b.td"\n' * 25 + 'class A : B;',
+               "/w/b.td": "class B;"}, "root": "/w/r.td"},
+    {"files": {"/w/r.td": 'def r;'}, "root": "/w/absent.td"},
 ]
 EXPECTED_TAGS = set("""id n bit int string code dag bits list class val in rs sl0 sl1 fs args pos named namedbad
 i s c b u lst cv bang ty noty vals cond some none targs ta parents cr body field let defvar assert dump stmts
